@@ -151,9 +151,13 @@ class Engine(StmtMixin, CallMixin, ExprMixin, EngineBase):
         for pn in k.get("params", {}):
             st.env["$final_" + pn] = st.env.get(pn)
             st.env[pn] = self.entry.env[pn]
-        for i, e in enumerate(k.get("ensures", [])):
-            g = self.spec(e, st, self.entry)
-            self.oblige(f"{short}/post#{i}[ret{self.cur_ret}]", "post", st, g, fn.lineno)
+        self.post_mode = True     # `result` denotes the returned value even if the body has a local of that name
+        try:
+            for i, e in enumerate(k.get("ensures", [])):
+                g = self.spec(e, st, self.entry)
+                self.oblige(f"{short}/post#{i}[ret{self.cur_ret}]", "post", st, g, fn.lineno)
+        finally:
+            self.post_mode = False
         for name, fnc in k.get("post_hooks", {}).items():
             g = fnc(self, st, self.entry)
             self.oblige(f"{short}/post[{name}][ret{self.cur_ret}]", "post", st, g, fn.lineno)
